@@ -31,7 +31,7 @@ TReset == /\ IsEvent("Reset")
 \* the harness reports, for every CID kind it uses, the registry name and digest length of the REAL
 \* CIDs it built (read back from cid.Prefix()): the model's validity table is about the same CIDs
 TKind    == /\ IsEvent("Kind") /\ Ev.kind \in Kinds
-            /\ KindSpec[Ev.kind] = [name |-> Ev.name, len |-> Ev.len]
+            /\ KindSpec[Ev.kind] = [name |-> Ev.name, len |-> Ev.len, form |-> Ev.form]
             /\ UNCHANGED <<vars, devAll>>
 TPreload == IsEvent("Preload") /\ Ev.b.c \in Cids /\ Preload(Ev.b) /\ Keep
 TCall    == /\ IsEvent("Call")
@@ -41,12 +41,17 @@ TBsHas   == IsEvent("BsHas") /\ Ev.found = HasRes(Ev.c) /\ BsHas(Ev.id, Ev.c) /\
 TBsGet   == /\ IsEvent("BsGet") /\ GetRes(Ev.c) = [found |-> Ev.found, ok |-> Ev.ok]
             /\ BsGet(Ev.id, Ev.c) /\ Keep
 \* a Put is either AddBlock's, or the caching of a block from the exchange (ideal or as built)
+\* ... or, when the store reported an error (injected fault), the failed version of either
 TBsPut   == /\ IsEvent("BsPut")
-            /\ \/ AddPut(Ev.id, {Ev.b})
-               \/ CachePut(Ev.id, Ev.b)
-               \/ DevCachePut(Ev.id, Ev.b)
+            /\ IF Ev.err THEN \/ AddPutFail(Ev.id, {Ev.b})
+                               \/ CachePutFail(Ev.id, Ev.b)
+                          ELSE \/ AddPut(Ev.id, {Ev.b})
+                               \/ CachePut(Ev.id, Ev.b)
+                               \/ DevCachePut(Ev.id, Ev.b)
             /\ Keep
-TBsPutMany == IsEvent("BsPutMany") /\ AddPut(Ev.id, ToSet(Ev.bs)) /\ Keep
+TBsPutMany == /\ IsEvent("BsPutMany")
+              /\ IF Ev.err THEN AddPutFail(Ev.id, ToSet(Ev.bs)) ELSE AddPut(Ev.id, ToSet(Ev.bs))
+              /\ Keep
 TBsDelete  == IsEvent("BsDelete") /\ BsDelete(Ev.id, Ev.c) /\ Keep
 TExSession == IsEvent("ExSession") /\ ExSession(Ev.id) /\ Keep
 TExAsk     == /\ IsEvent("ExAsk") /\ Len(Ev.ks) > 0
